@@ -17,7 +17,7 @@ PFIELDS = ["hours", "minutes", "seconds", "milliseconds", "ticks", "nanoseconds"
 
 META = {
     "property": "C10",
-    "proof_modules": ["PyodaProofs.C10", "PyodaProofs.GenAgreeC10"],
+    "proof_modules": ["PyodaProofs.C10", "PyodaProofs.C10DateSteps", "PyodaProofs.C10Full", "PyodaProofs.GenAgreeC10"],
     "drivers": ["drv_timeofday"],
     "theorems": [
         "Pyoda.C10.localTime_inv_factories", "Pyoda.C10.localTime_inv", "Pyoda.C10.factories_raise_iff",
@@ -26,6 +26,14 @@ META = {
         "Pyoda.C10.addLocalDateTime_exact",
         "Pyoda.C10.addLocalDateTime_raises_iff", "Pyoda.C10.plusPeriod_exact", "Pyoda.C10.plusPeriod_order",
         "Pyoda.C10.unitsBetween_trunc", "Pyoda.C10.compare_iff",
+        # Period arithmetic with the date part inside the model (PyodaProofs/C10Full.lean), all 19 calendars
+        "Pyoda.C10.dateSteps_spec", "Pyoda.C10.dateSteps_raises_iff", "Pyoda.C10.plusPeriodFull_spec", "Pyoda.C10.plusPeriodFull_valid",
+        "Pyoda.C10.plusPeriodFull_raises_iff", "Pyoda.C10.addYears_raises_iff", "Pyoda.C10.addMonths_raises_overflow",
+        "Pyoda.C10.plusPeriodFull_error_kind_partial", "Pyoda.C10.minus_eq_plus_neg",
+        "Pyoda.C10.minusPeriodFull_spec", "Pyoda.C10.date_plus_rejects_time_units", "Pyoda.C10.date_plus_eq_ldt_plus",
+        "Pyoda.C10.time_plus_rejects_date_units", "Pyoda.C10.time_plus_mod", "Pyoda.C10.time_only_period_commutes",
+        "Pyoda.C10.timeOnly_pos", "Pyoda.C10.time_only_ldt_commutes", "Pyoda.C10.time_only_ldt_sum", "Pyoda.C10.period_add_spec",
+        "Pyoda.C10.period_sub_spec", "Pyoda.C10.period_neg_spec", "Pyoda.C10.period_algebra",
         # agreement of the definitions generated from the Python source (tools/py2lean.py) with the model
         "Pyoda.GenAgree.C10.gen_LocalTime_ctor_eq", "Pyoda.GenAgree.C10.gen_LocalTime_new_eq",
         "Pyoda.GenAgree.C10.gen_LocalTime_fromHMSMsT_eq", "Pyoda.GenAgree.C10.gen_LocalTime_fromHMST_eq",
@@ -51,8 +59,17 @@ META = {
     "trusted_base": [
         "CPython int arithmetic; decimal division exact for operands below 10^27 (sampled by C03 suite prelude.tdiv) - used only by the "
         "accessors and Period.between, whose operands are below 2^47 resp. 2^77; the additions use integer division for every amount",
-        "date carry: LocalDate.plus_days / plus_weeks abstracted to a range check of the day number against the calendar's "
-        "[min_days, max_days] (tied to the code by suite ldt.* in 19 calendars; the calendars themselves are C01/C09)",
+        "date carry of plus_<time unit> (ops ldt.plus, ldt.plusperiod): LocalDate.plus_days / plus_weeks abstracted to a range check of the day "
+        "number against the calendar's [min_days, max_days] (tied to the code by suite ldt.* in 19 calendars); the full-period ops "
+        "(ldtf.period, datef.period: suite full.period) use C09's date-arithmetic model over the calendar descriptions of C01 instead, "
+        "with no value computed by the real code",
+        "full-period theorems (C10Full.lean) hold for the 19 calendar descriptions under the hypothesis structure Pyoda.C09.Evaluated "
+        "(wfCheck = true for Hebrew civil/scriptural, Persian astronomical, Um Al Qura, Badi via C01's wfCheck_sound; yearLenCheck = true "
+        "for the two Hebrew calendars), discharged by EVALUATION on the compiled driver drv_timeofday on every run (ops cal.wf 4|5|8|17|18, "
+        "date.wf 4|5; oracle 'evaluated-hypotheses') - the Lean compiler is trusted for that step; the other 14 calendars have symbolic "
+        "well-formedness proofs (C01/C09)",
+        "month amounts of 10^27 and more are outside the model (!dom: the code's Decimal-based division in _add_months is no longer exact "
+        "there); every other component is modelled for all integers",
         "int(NANOSECONDS_PER_DAY / unit_nanoseconds) is exact for the seven units (float quotient of integers below 2^53)",
         "translator tools/py2lean.py (second tie, besides the correspondence suites): LocalTime's constructor, factories, accessors and "
         "comparisons and _TimePeriodField._add_local_time / _add_local_time_with_extra_days / _get_units_in_duration (listed under C10 in "
@@ -63,13 +80,21 @@ META = {
         "structure literal; the two instance attributes of _TimePeriodField are parameters instantiated with (u.nanos, u.unitsPerDay) per unit; "
         "helpers _towards_zero_division, _csharp_modulo, _int32_overflow, _int64_overflow, _check_argument_range hand-mapped. Not translated: "
         "plus_hours ... plus_nanoseconds (go through metaclass properties and the float division in _TimePeriodField.__init__), "
-        "_add_local_date_time, LocalDateTime.plus(Period) (correspondence only)",
+        "_add_local_date_time, LocalDateTime.plus(Period) (hand-written model + correspondence)",
     ],
     "partial": [
-        "plus_years/plus_months inside plus(Period) are taken from the real code (day number after them is an op argument); their laws are C09",
+        "plusPeriodFull_raises_iff names the years condition (target year outside the calendar) and the two day-range conditions explicitly; "
+        "for the months step it says 'the months step raises on the result of the years step', whose calendar-specific meaning (target "
+        "year of the month index outside the calendar) is C09's addMonths_regular_spec / addMonths_hebrew_spec / addMonths_badi_spec",
+        "kind of the exception: proved for the years step (ValueError) and the months step (OverflowError) - "
+        "plusPeriodFull_error_kind_partial, full statement kept as plusPeriodFull_error_kindStatement; the kinds raised by the weeks and "
+        "days steps are tied to the code by correspondence only (suite full.period compares exact kinds)",
+        "Period has no __neg__ and no _add_to in this port: minus(Period) negates each component inline (modelled so; minus_eq_plus_neg)",
     ],
     "rule": "times at 0, 1, 24h-1 and every hour/minute boundary +-1; amounts 0, +-1, +-(upd-1), +-upd, +-(upd+1), +-k*upd(+-1), 2^63+-1, 10^27, 10^30 per unit, "
-            "amounts that land exactly on day boundaries and calendar range ends; 19 calendars; distinct = distinct op line; every op exercises arithmetic or a range check",
+            "amounts that land exactly on day boundaries and calendar range ends; 19 calendars; full periods: month ends, leap days, Adar/Adar II, Ayyam-i-Ha, "
+            "first/last years x years/months that clamp x time units that carry across midnight, on all six routes (plus, +, add, minus, -, subtract); "
+            "distinct = distinct op line; every op exercises arithmetic or a range check",
 }
 
 
@@ -197,6 +222,8 @@ def _impl(t):
         cal = cal_of(t[1])
         s, e = ldt_of(cal, int(t[3]), int(t[4])), ldt_of(cal, int(t[5]), int(t[6]))
         return str(getattr(P.Period.between(s, e, getattr(P.PeriodUnits, t[2].upper())), t[2]))
+    if op in FULL_OPS:
+        return impl_full(t)
     raise ValueError("unknown op " + op)
 
 
@@ -355,6 +382,8 @@ def touches_bad(cal, days, pad=400):
 def oracle(t):
     """failures of date-time ops whose days lie in or around a region where the calendar itself is inconsistent are
     keyed as inherited (they are consequences of C01 defects, not of the time arithmetic)"""
+    if t[0] in FULL_OPS:
+        return oracle_full(t)
     if not t[0].startswith("ldt."):
         return _oracle(t)
     try:
@@ -552,7 +581,452 @@ def _oracle(t):
     return None
 
 
+
+# ---------------------------------------------------------------------------------------------
+# Period arithmetic with the date part inside the model: ops ldtf.period / datef.period / timef.period /
+# period.alg / period.has (lean/PyodaModel/TimeOfDay/Full.lean).  The ops carry the calendar ordinal and the
+# (year, month, day, nanosecond-of-day) fields only; nothing computed by the real code is passed to the model.
+# ---------------------------------------------------------------------------------------------
+
+FULL_OPS = ("ldtf.period", "ldtf.unit", "datef.period", "timef.period", "period.alg", "period.has", "ldtf.sumseq")
+DATE_UNITS = ["years", "months", "weeks", "days"]
+ROUTES_PLUS = ("plus", "opadd", "add")
+ROUTES_MINUS = ("minus", "opsub", "subtract")
+PNAMES = ["years", "months", "weeks", "days", "hours", "minutes", "seconds", "milliseconds", "ticks", "nanoseconds"]
+PNANOS = [NPH, NPM, NPS, 1_000_000, 100, 1]
+
+_info = {}
+
+
+def info(o):
+    """ordinal -> (calendar, min_year, max_year, min_days, max_days)"""
+    if not _info:
+        P = _P()
+        for cid in P.CalendarSystem.ids:
+            c = P.CalendarSystem.for_id(cid)
+            _info[int(c._ordinal)] = (c, c.min_year, c.max_year, c._min_days, c._max_days)
+    return _info[o]
+
+
+def ordinals():
+    info(0)
+    return sorted(_info)
+
+
+def mkperiod(c):
+    return _P().Period._ctor(years=c[0], months=c[1], weeks=c[2], days=c[3], hours=c[4], minutes=c[5], seconds=c[6],
+                             milliseconds=c[7], ticks=c[8], nanoseconds=c[9])
+
+
+def pcomps(p):
+    return (p.years, p.months, p.weeks, p.days, p.hours, p.minutes, p.seconds, p.milliseconds, p.ticks, p.nanoseconds)
+
+
+def apply_route(x, p, route):
+    cls = type(x)
+    if route == "plus":
+        return x.plus(p)
+    if route == "opadd":
+        return x + p
+    if route == "add":
+        return cls.add(x, p)
+    if route == "minus":
+        return x.minus(p)
+    if route == "opsub":
+        return x - p
+    if route == "subtract":
+        return cls.subtract(x, p)
+    raise ValueError("route " + route)
+
+
+def impl_full(t):
+    P = _P()
+    op = t[0]
+    if op == "ldtf.period":
+        route, o = t[1], int(t[2])
+        y, m, d, nod = (int(x) for x in t[3:7])
+        x = P.LocalDate(y, m, d, info(o)[0]) + lt_of(nod)
+        r = apply_route(x, mkperiod([int(a) for a in t[7:17]]), route)
+        return ints(r.year, r.month, r.day, r.nanosecond_of_day)
+    if op == "ldtf.unit":
+        o = int(t[2])
+        y, m, d, nod, n = (int(x) for x in t[3:8])
+        x = P.LocalDate(y, m, d, info(o)[0]) + lt_of(nod)
+        r = getattr(x, "plus_" + t[1])(n)
+        return ints(r.year, r.month, r.day, r.nanosecond_of_day)
+    if op == "datef.period":
+        route, o = t[1], int(t[2])
+        y, m, d = (int(x) for x in t[3:6])
+        r = apply_route(P.LocalDate(y, m, d, info(o)[0]), mkperiod([int(a) for a in t[6:16]]), route)
+        return ints(r.year, r.month, r.day)
+    if op == "timef.period":
+        r = apply_route(lt_of(int(t[2])), mkperiod([int(a) for a in t[3:13]]), t[1])
+        return str(r.nanosecond_of_day)
+    if op == "period.alg":
+        p, q = mkperiod([int(a) for a in t[2:12]]), mkperiod([int(a) for a in t[12:22]])
+        r = {"opadd": lambda: p + q, "add": lambda: p.add(q), "opsub": lambda: p - q, "subtract": lambda: p.subtract(q)}[t[1]]()
+        return ints(*pcomps(r))
+    if op == "period.has":
+        p = mkperiod([int(a) for a in t[1:11]])
+        return ints(p.has_time_component, p.has_date_component)
+    raise ValueError("unknown op " + op)
+
+
+# ---- reference for plus_years / plus_months read through the public calendar API (month counts, month lengths,
+# ---- chronological month order, calendar conversion), independent of the arithmetic under test
+
+_cum = {}
+_order = {}
+
+
+def cum_months(o):
+    if o not in _cum:
+        c, mny, mxy, _, _ = info(o)
+        acc, out = 0, []
+        for y in range(mny, mxy + 1):
+            out.append(acc)
+            acc += c.get_months_in_year(y)
+        out.append(acc)
+        _cum[o] = out
+    return _cum[o]
+
+
+def month_order(o, y):
+    """month numbers of year y in chronological order (Hebrew scriptural: from Tishri)"""
+    k = (o, y)
+    if k not in _order:
+        c = info(o)[0]
+        n = c.get_months_in_year(y)
+        if o != 5:
+            _order[k] = list(range(1, n + 1))
+        else:
+            _order[k] = sorted(range(1, n + 1), key=lambda mm: _P().LocalDate(y, mm, 1, c)._days_since_epoch)
+    return _order[k]
+
+
+def ref_plus_months(o, y, m, d, n):
+    """-> (Y, M, D) or None when the target month lies outside the calendar"""
+    import bisect
+    c, mny, mxy, _, _ = info(o)
+    if n == 0:
+        return (y, m, d)
+    pos = month_order(o, y).index(m)
+    dd = d
+    if o == 18 and m == 18 and d > 19:
+        # Ayyam-i-Ha: the day keeps its number within the intercalary days; forward the count starts from month 18,
+        # backward from month 19 (rule stated in _BadiYearMonthDayCalculator._add_months)
+        dd = d - 19
+        if n < 0:
+            pos = 18
+    if o in (4, 5):
+        cm = cum_months(o)
+        tgt = cm[y - mny] + pos + n
+        if tgt < 0 or tgt >= cm[-1]:
+            return None
+        i = bisect.bisect_right(cm, tgt) - 1
+        yy, pp = mny + i, tgt - cm[i]
+    else:
+        nm = c.get_months_in_year(y)
+        yy, pp = divmod(y * nm + pos + n, nm)
+        if yy < mny or yy > mxy:
+            return None
+    mm = month_order(o, yy)[pp]
+    return (yy, mm, min(dd, c.get_days_in_month(yy, mm)))
+
+
+def ref_plus_years(o, y, m, d, n):
+    c, mny, mxy, _, _ = info(o)
+    if n == 0:
+        return (y, m, d)
+    yy = y + n
+    if yy < mny or yy > mxy:
+        return None
+    if o not in (4, 5):
+        return (yy, m, min(d, c.get_days_in_month(yy, m)))
+    # Hebrew: Adar <-> Adar I/II and the day-30 roll-over documented in _set_year, evaluated in the scriptural numbering
+    hs = info(5)[0]
+    s = _P().LocalDate(y, m, d, c).with_calendar(hs)
+    sm, sday = s.month, s.day
+    if sm == 13 and not hs.is_leap_year(yy):
+        sm = 12
+    elif sm == 12 and hs.is_leap_year(yy) and not hs.is_leap_year(y):
+        sm = 13
+    if sday > hs.get_days_in_month(yy, sm):
+        sday = 1
+        sm = 1 if sm == 12 else sm + 1
+    r = _P().LocalDate(yy, sm, sday, hs).with_calendar(c)
+    return (r.year, r.month, r.day)
+
+
+def ref_date_steps(o, ymd, c4, carry_ns=None, nod=0):
+    """years, months, weeks, days folded first-to-last over the date; with carry_ns the total of the time units is added
+    on the local time line of the date reached (day number x 24 h + nanosecond-of-day).
+    -> ("ok", (Y, M, D), nod', days_touched) | ("raise", step, days_touched) | ("skip",)"""
+    cal, mny, mxy, mnd, mxd = info(o)
+    P = _P()
+    if abs(c4[1]) >= DEC:
+        return ("skip",)
+    a = ref_plus_years(o, *ymd, c4[0])
+    if a is None:
+        return ("raise", "years", [])
+    b = ref_plus_months(o, *a, c4[1])
+    if b is None:
+        return ("raise", "months", [])
+    d2 = P.LocalDate(b[0], b[1], b[2], cal)._days_since_epoch
+    d3 = d2 + 7 * c4[2]
+    if not mnd <= d3 <= mxd:
+        return ("raise", "weeks", [d2])
+    total = (d3 + c4[3]) * NPD + nod + (carry_ns or 0)
+    D, n = divmod(total, NPD)
+    if not mnd <= D <= mxd:
+        return ("raise", "days", [d2, d3])
+    x = P.LocalDate._ctor(days_since_epoch=D, calendar=cal)
+    return ("ok", (x.year, x.month, x.day), n, [d2, d3, D])
+
+
+def _full_failure(f, o, days):
+    """failures next to a region where the calendar itself is inconsistent are inherited from C01"""
+    cal = info(o)[0]
+    if f and touches_bad(cal, days):
+        f["inherited_from"] = f["key"]
+        f["key"] = "inherited-calendar-defect-" + cal.id.lower().replace(" ", "-")
+    return f
+
+
+def _check_against_ref(pfx, what, fn, ref, o, day0, get):
+    """fn() on the real code against the reference outcome `ref`; get(result) -> comparable tuple"""
+    kind, r = _run(fn)
+    if ref[0] == "skip":
+        return None
+    if kind in ("other", "dec"):
+        return _full_failure({"key": pfx + "-unexpected-exception", "what": f"{what}: raised {type(r).__name__}: {r}"}, o, [day0])
+    if ref[0] == "raise":
+        if kind == "ok":
+            return _full_failure({"key": pfx + "-leaves-range-accepted",
+                                  "what": f"{what}: returned {get(r)} although the {ref[1]} step leaves the calendar"}, o, [day0] + ref[2])
+        return None
+    exp = ref[1] + ((ref[2],) if ref[2] is not None else ())
+    if kind != "ok":
+        return _full_failure({"key": pfx + "-raises-in-range",
+                              "what": f"{what}: raised {type(r).__name__} ({r}); expected {exp}"}, o, [day0] + ref[3])
+    got = get(r)
+    if got != exp:
+        return _full_failure({"key": pfx + "-wrong-result", "what": f"{what}: returned {got}; years, months, weeks, days applied in "
+                              f"turn and the time units added with carry give {exp}"}, o, [day0] + ref[3])
+    if r.calendar != info(o)[0]:
+        return {"key": pfx + "-calendar-changed", "what": f"{what}: result calendar {r.calendar.id}"}
+    return None
+
+
+def _signed(route, comps):
+    if route in ROUTES_PLUS:
+        return list(comps)
+    if route in ROUTES_MINUS:
+        return [-x for x in comps]
+    return None
+
+
+def oracle_full(t):
+    P = _P()
+    op = t[0]
+    if op == "ldtf.period":
+        route, o = t[1], int(t[2])
+        y, m, d, nod = (int(x) for x in t[3:7])
+        comps = [int(a) for a in t[7:17]]
+        c = _signed(route, comps)
+        cal = info(o)[0]
+        if c is None or not 0 <= nod < NPD:
+            return None
+        try:
+            date = P.LocalDate(y, m, d, cal)
+        except ValueError:
+            return None
+        x = date + lt_of(nod)
+        p = mkperiod(comps)
+        tot = sum(a * u for a, u in zip(c[4:], PNANOS))
+        ref = ref_date_steps(o, (y, m, d), c[:4], tot, nod)
+        what = f"LocalDateTime({cal.id} {y}-{m}-{d} nod {nod}) {route} Period{tuple(comps)}"
+        return _check_against_ref("ldt-period", what, lambda: apply_route(x, p, route), ref, o, date._days_since_epoch,
+                                  lambda r: (r.year, r.month, r.day, r.nanosecond_of_day))
+    if op == "ldtf.unit":
+        o = int(t[2])
+        y, m, d, nod, n = (int(x) for x in t[3:8])
+        cal = info(o)[0]
+        if t[1] not in DATE_UNITS or not 0 <= nod < NPD:
+            return None
+        try:
+            date = P.LocalDate(y, m, d, cal)
+        except ValueError:
+            return None
+        x = date + lt_of(nod)
+        c4 = [0, 0, 0, 0]
+        c4[DATE_UNITS.index(t[1])] = n
+        ref = ref_date_steps(o, (y, m, d), c4, 0, nod)
+        what = f"LocalDateTime({cal.id} {y}-{m}-{d} nod {nod}).plus_{t[1]}({n})"
+        return _check_against_ref("ldt-plus-" + t[1], what, lambda: getattr(x, "plus_" + t[1])(n), ref, o, date._days_since_epoch,
+                                  lambda r: (r.year, r.month, r.day, r.nanosecond_of_day))
+    if op == "datef.period":
+        route, o = t[1], int(t[2])
+        y, m, d = (int(x) for x in t[3:6])
+        comps = [int(a) for a in t[6:16]]
+        c = _signed(route, comps)
+        cal = info(o)[0]
+        if c is None:
+            return None
+        try:
+            date = P.LocalDate(y, m, d, cal)
+        except ValueError:
+            return None
+        p = mkperiod(comps)
+        what = f"LocalDate({cal.id} {y}-{m}-{d}) {route} Period{tuple(comps)}"
+        if any(comps[4:]):
+            kind, r = _run(lambda: apply_route(date, p, route))
+            if kind == "ok":
+                return {"key": "date-period-time-units-accepted", "what": f"{what}: returned {sd(r)}; a period with time units must be rejected"}
+            if not isinstance(r, ValueError):
+                return {"key": "date-period-unexpected-exception", "what": f"{what}: raised {type(r).__name__}: {r}, expected ValueError"}
+            return None
+        ref = ref_date_steps(o, (y, m, d), c[:4])
+        if ref[0] == "ok":
+            ref = ("ok", ref[1], None, ref[3])
+        return _check_against_ref("date-period", what, lambda: apply_route(date, p, route), ref, o, date._days_since_epoch,
+                                  lambda r: (r.year, r.month, r.day))
+    if op == "timef.period":
+        route, nod = t[1], int(t[2])
+        comps = [int(a) for a in t[3:13]]
+        c = _signed(route, comps)
+        if c is None or not 0 <= nod < NPD:
+            return None
+        p = mkperiod(comps)
+        x = lt_of(nod)
+        what = f"LocalTime(nod={nod}) {route} Period{tuple(comps)}"
+        if any(comps[:4]):
+            kind, r = _run(lambda: apply_route(x, p, route))
+            if kind == "ok":
+                return {"key": "time-period-date-units-accepted", "what": f"{what}: returned nod {r.nanosecond_of_day}; a period with date units must be rejected"}
+            if not isinstance(r, ValueError):
+                return {"key": "time-period-unexpected-exception", "what": f"{what}: raised {type(r).__name__}: {r}, expected ValueError"}
+            return None
+        tot = sum(a * u for a, u in zip(c[4:], PNANOS))
+        return _expect_time(lambda: apply_route(x, p, route), (nod + tot) % NPD, what)
+    if op == "period.alg":
+        a, b = [int(x) for x in t[2:12]], [int(x) for x in t[12:22]]
+        p, q = mkperiod(a), mkperiod(b)
+        add = t[1] in ("opadd", "add")
+        r = {"opadd": lambda: p + q, "add": lambda: p.add(q), "opsub": lambda: p - q, "subtract": lambda: p.subtract(q)}[t[1]]()
+        exp = tuple(x + y if add else x - y for x, y in zip(a, b))
+        if pcomps(r) != exp:
+            return {"key": "period-algebra", "what": f"Period{tuple(a)} {t[1]} Period{tuple(b)} = {pcomps(r)}, component-wise result {exp}"}
+        back = (r - q) if add else (r + q)
+        if back != p or pcomps(back) != tuple(a):
+            return {"key": "period-algebra", "what": f"Period{tuple(a)} {t[1]} Period{tuple(b)} is not undone by the inverse operation: {pcomps(back)}"}
+        if pcomps(p) != tuple(a) or pcomps(q) != tuple(b):
+            return {"key": "period-algebra-mutates", "what": f"Period{tuple(a)} {t[1]} Period{tuple(b)} changed an operand"}
+        return None
+    if op == "period.has":
+        a = [int(x) for x in t[1:11]]
+        p = mkperiod(a)
+        got = (p.has_time_component, p.has_date_component)
+        exp = (any(a[4:]), any(a[:4]))
+        if got != exp:
+            return {"key": "period-has-component", "what": f"Period{tuple(a)}: (has_time_component, has_date_component) = {got}, expected {exp}"}
+        return None
+    if op == "ldtf.sumseq":
+        return o_sumseq(t)
+    return None
+
+
+def _ref_ldt(o, ymd, nod, c):
+    tot = sum(a * u for a, u in zip(c[4:], PNANOS))
+    return ref_date_steps(o, ymd, c[:4], tot, nod)
+
+
+def o_sumseq(t):
+    """ldtf.sumseq o y m d nod <p> <q>: (x + p) + q, x + (p + q) and (x + q) + p are each checked against the reference of
+    their own sequence of steps; they are NOT required to agree with each other, except that two periods of time units
+    only commute and add up whenever the intermediate values exist.  Returns the failure, or None."""
+    P = _P()
+    o = int(t[1])
+    y, m, d, nod = (int(x) for x in t[2:6])
+    a, b = [int(x) for x in t[6:16]], [int(x) for x in t[16:26]]
+    cal = info(o)[0]
+    x = P.LocalDate(y, m, d, cal) + lt_of(nod)
+    p, q = mkperiod(a), mkperiod(b)
+    get = lambda r: (r.year, r.month, r.day, r.nanosecond_of_day)  # noqa: E731
+
+    def seq(first, second, ca, cb):
+        r1 = _ref_ldt(o, (y, m, d), nod, ca)
+        k1, v1 = _run(lambda: x + first)
+        f = _check_against_ref("ldt-period", f"LocalDateTime({cal.id} {y}-{m}-{d} nod {nod}) + Period{tuple(ca)}", lambda: x + first, r1, o,
+                               x.date._days_since_epoch, get)
+        if f or k1 != "ok" or r1[0] != "ok":
+            return f, None
+        r2 = _ref_ldt(o, r1[1], r1[2], cb)
+        f = _check_against_ref("ldt-period", f"LocalDateTime({cal.id} {sdt(v1)}) + Period{tuple(cb)}", lambda: v1 + second, r2, o,
+                               v1.date._days_since_epoch, get)
+        k2, v2 = _run(lambda: v1 + second)
+        return f, (get(v2) if k2 == "ok" else None)
+    f, pq = seq(p, q, a, b)
+    if f:
+        return f
+    f, qp = seq(q, p, b, a)
+    if f:
+        return f
+    s = [u + v for u, v in zip(a, b)]
+    rs = _ref_ldt(o, (y, m, d), nod, s)
+    f = _check_against_ref("ldt-period", f"LocalDateTime({cal.id} {y}-{m}-{d} nod {nod}) + (Period{tuple(a)} + Period{tuple(b)})",
+                           lambda: x + (p + q), rs, o, x.date._days_since_epoch, get)
+    if f:
+        return f
+    ks, vs = _run(lambda: x + (p + q))
+    if not any(a[:4]) and not any(b[:4]):
+        if pq is not None and qp is not None and pq != qp:
+            return {"key": "time-periods-do-not-commute", "what": f"{cal.id} {y}-{m}-{d} nod {nod}: + Period{tuple(a)} + Period{tuple(b)} = {pq}, in the other order {qp}"}
+        if pq is not None and (ks != "ok" or get(vs) != pq):
+            return {"key": "time-periods-do-not-add-up", "what": f"{cal.id} {y}-{m}-{d} nod {nod}: + Period{tuple(a)} + Period{tuple(b)} = {pq}, + the sum of the periods = {get(vs) if ks == 'ok' else 'error'}"}
+    SUMSEQ_STATS["cases"] += 1
+    if pq is not None and ks == "ok" and get(vs) != pq:
+        SUMSEQ_STATS["sum_differs"] += 1
+    if pq is not None and qp is not None and pq != qp:
+        SUMSEQ_STATS["order_differs"] += 1
+    return None
+
+
+SUMSEQ_STATS = {"cases": 0, "sum_differs": 0, "order_differs": 0}
+
+# concrete witnesses (ISO): adding periods one after the other is not adding their sum, and a date period does not
+# commute with a time period, because of the month-end clamping.  (op, value of the sequence, value of the other form)
+WITNESSES = [
+    # 2023-01-31 + 1 month + 1 month = 03-28, + 2 months = 03-31
+    ("ldtf.sumseq 0 2023 1 31 0 0 1 0 0 0 0 0 0 0 0 0 1 0 0 0 0 0 0 0 0", "sum", (2023, 3, 28, 0), (2023, 3, 31, 0)),
+    # 2023-01-30T23:00 + 1 month + 2 hours = 03-01T01:00, + 2 hours + 1 month = 02-28T01:00
+    ("ldtf.sumseq 0 2023 1 30 82800000000000 0 1 0 0 0 0 0 0 0 0 0 0 0 0 2 0 0 0 0 0", "order", (2023, 3, 1, 3600000000000), (2023, 2, 28, 3600000000000)),
+]
+
+
+def witness_case(w):
+    op, kind, first, other = w
+    t = op.split(" ")
+    f = o_sumseq(t)
+    if f:
+        return f
+    P = _P()
+    o = int(t[1])
+    y, m, d, nod = (int(v) for v in t[2:6])
+    a, b = [int(v) for v in t[6:16]], [int(v) for v in t[16:26]]
+    x = P.LocalDate(y, m, d, info(o)[0]) + lt_of(nod)
+    p, q = mkperiod(a), mkperiod(b)
+    get = lambda r: (r.year, r.month, r.day, r.nanosecond_of_day)  # noqa: E731
+    v1 = get((x + p) + q)
+    v2 = get(x + (p + q)) if kind == "sum" else get((x + q) + p)
+    if (v1, v2) != (first, other):
+        return {"key": "period-sequence-witness", "what": f"{op}: the sequence gives {v1} (documented {first}), the other form {v2} (documented {other})"}
+    return None
+
+
 def neighbours(t):
+    if t[0] in FULL_OPS:
+        return neighbours_full(t)
     out = []
     for i, x in enumerate(t):
         if i and isint(x):
@@ -819,7 +1293,13 @@ def gen_period_ops(ctx, n):
             j = rng.randrange(6)
             tot = sum(a * UNIT_NANOS[f] for a, f in zip(tv, PFIELDS)) - tv[j] * UNIT_NANOS[PFIELDS[j]]
             tv[j] = -tot // UNIT_NANOS[PFIELDS[j]] + rng.choice([0, 1, -1, rng.randint(-10**6, 10**6)])
-        ops.append(f"ldt.plusperiod {tok} {sg} {lo} {hi} {d} {tm} {y} {mo} {d1} {w} {dd} " + " ".join(map(str, tv)))
+        if y or mo:
+            # years / months: the full-period op (calendar ordinal and date fields only; nothing computed by the real code)
+            x = date_of(c, d)
+            ops.append(f"ldtf.period {'plus' if sg == 1 else 'minus'} {int(c._ordinal)} {x.year} {x.month} {x.day} {tm} {y} {mo} {w} {dd} "
+                       + " ".join(map(str, tv)))
+        else:
+            ops.append(f"ldt.plusperiod {tok} {sg} {lo} {hi} {d} {tm} 0 0 {d} {w} {dd} " + " ".join(map(str, tv)))
     # between: single time units
     for i in range(n // 2):
         tok, c, lo, hi = rng.choice(cals)
@@ -856,13 +1336,293 @@ def gen_huge_ops(ctx):
     return ops
 
 
+
+# ---- generators for the full-period ops
+
+SPECIAL_MONTHS = {0: [1, 2, 3, 12], 1: [1, 2, 3, 12], 2: [1, 2, 3, 12], 3: [1, 12, 13], 4: [1, 2, 3, 5, 6, 7, 8, 12, 13],
+                  5: [1, 6, 7, 8, 9, 11, 12, 13], 6: [1, 6, 7, 11, 12], 7: [1, 6, 7, 11, 12], 8: [1, 6, 7, 11, 12], 17: list(range(1, 13)),
+                  18: [1, 17, 18, 18, 18, 19]}
+CYCLE = {0: 400, 1: 400, 2: 4, 3: 4, 4: 19, 5: 19, 6: 33, 7: 33, 8: 33, 17: 1, 18: 4}
+
+
+def gen_year(rng, o):
+    c, mny, mxy, _, _ = info(o)
+    r = rng.random()
+    if r < 0.12:
+        return mny + rng.randint(0, 2)
+    if r < 0.24:
+        return mxy - rng.randint(0, 2)
+    if r < 0.45:
+        cyc = CYCLE.get(o, 30)
+        y = rng.randint(mny // cyc, mxy // cyc) * cyc + rng.choice([-1, 0, 1, 2])
+        return min(max(y, mny), mxy)
+    if r < 0.55 and o <= 1:
+        return rng.choice([1899, 1900, 1901, 2000, 2023, 2024, 2099, 2100, 2101, -1, 0, 1, 4])
+    if r < 0.55 and o == 18:
+        return rng.choice([171, 172, 173, 249, 250, 253, 645, 649, 653, 998, 999, 1, 2])
+    if r < 0.55 and o in (4, 5):
+        return rng.choice([5784, 5785, 5783, 5782, 5790, 5776])
+    return rng.randint(mny, mxy)
+
+
+def gen_date(rng, o):
+    """month ends, leap days, Adar / Adar II, Ayyam-i-Ha, first and last years"""
+    c = info(o)[0]
+    y = gen_year(rng, o)
+    nm = c.get_months_in_year(y)
+    sp = [m for m in SPECIAL_MONTHS.get(o, [1, 11, 12]) if m <= nm]
+    m = rng.choice(sp) if rng.random() < 0.6 else rng.randint(1, nm)
+    dim = c.get_days_in_month(y, m)
+    d = rng.choice([1, dim, dim, dim, dim - 1, dim - 1, min(29, dim), min(30, dim), min(19, dim), min(20, dim), rng.randint(1, dim)])
+    if o == 18 and m == 18 and rng.random() < 0.6:
+        d = rng.randint(20, dim)
+    return (y, m, max(d, 1))
+
+
+def gen_nod_edge(rng, bt):
+    c = rng.random()
+    if c < 0.5:
+        return rng.choice([0, 1, NPD - 1, NPD - 2, 23 * NPH, 23 * NPH + 59 * NPM, NPH, NPD - NPH, 12 * NPH, NPD - 100, 99])
+    return gen_time(rng, bt)
+
+
+def gen_time_comps(rng, nod, want_carry):
+    """six time components; with want_carry the total crosses midnight by a small number of days"""
+    tv = [0] * 6
+    c = rng.random()
+    if not want_carry and c < 0.35:
+        return tv
+    if c < 0.55:
+        # one unit, just across (or just short of) midnight in the chosen direction
+        j = rng.randrange(6)
+        days = rng.choice([1, -1, 0, 1, -1, 2, -2, 3])
+        edge = rng.choice([0, 0, NPD - 1, rng.randrange(NPD)])
+        tv[j] = (days * NPD + edge - nod) // PNANOS[j] + rng.choice([0, 0, 1, -1])
+        return tv
+    if c < 0.8:
+        for j in range(6):
+            if rng.random() < 0.5:
+                tv[j] = rng.choice([1, -1, 2, -2, 23, 24, 25, -24, 59, 60, -60, 999, 1000, rng.randint(-100, 100)])
+        return tv
+    # large amounts that cancel up to a few days (far beyond 64 bits now and then)
+    for j in range(6):
+        if rng.random() < 0.5:
+            tv[j] = rng.choice([1, -1]) * rng.choice([10 ** 6, 10 ** 12, 2 ** 63, 10 ** 20, 10 ** 30, rng.randint(1, 10 ** 15)])
+    j = rng.randrange(6)
+    tot = sum(a * u for a, u in zip(tv, PNANOS)) - tv[j] * PNANOS[j]
+    tv[j] = (-tot + rng.choice([0, 1, -1, 2, -3]) * NPD + rng.randrange(-NPD, NPD)) // PNANOS[j]
+    return tv
+
+
+def gen_date_comps(rng, o, a):
+    c, mny, mxy, mnd, mxd = info(o)
+    nm = c.get_months_in_year(a[0])
+    r = rng.random()
+    yy = rng.choice([0, 0, 0, 1, -1, 4, -4, 19, rng.randint(-30, 30)])
+    mm = rng.choice([0, 1, -1, 1, -1, 2, -2, nm, -nm, nm + 1, 6, -6, 7, rng.randint(-40, 40)])
+    ww = rng.choice([0, 0, 0, 1, -1, 4, -5, 42, 43, -43, rng.randint(-100, 100)])
+    dd = rng.choice([0, 0, 0, 1, -1, 2, 28, 29, 30, 31, -30, 299, 300, -300, rng.randint(-400, 400)])
+    if r < 0.12:
+        # towards the ends of the calendar, by years or by months
+        if rng.random() < 0.5:
+            yy = rng.choice([mxy - a[0], mxy - a[0] + 1, mny - a[0], mny - a[0] - 1, mxy - a[0] - 1, mny - a[0] + 1])
+            mm = rng.choice([0, 0, 1, -1, nm, -nm])
+        else:
+            yy = rng.choice([0, 0, 1, -1])
+            mm = rng.choice([(mxy - a[0]) * nm, (mxy - a[0] + 1) * nm, (mny - a[0]) * nm, (mny - a[0] - 1) * nm,
+                             (mxy - a[0] + 1) * nm - a[1], (mny - a[0]) * nm - a[1] + 1, (mny - a[0]) * nm - a[1]])
+    elif r < 0.2:
+        d0 = _P().LocalDate(a[0], a[1], a[2], c)._days_since_epoch
+        yy = mm = 0
+        if rng.random() < 0.5:
+            ww = rng.choice([(mxd - d0) // 7, (mxd - d0) // 7 + 1, -((d0 - mnd) // 7), -((d0 - mnd) // 7) - 1])
+            dd = rng.choice([0, 1, -1, 6, -6, 7])
+        else:
+            ww = rng.choice([0, 0, 1, -1])
+            dd = rng.choice([mxd - d0, mxd - d0 + 1, mnd - d0, mnd - d0 - 1, mxd - d0 - 1, mnd - d0 + 1]) - 7 * ww
+    elif r < 0.25:
+        mm = rng.choice([235, -235, 234, 236, 470, 4800, -4800, 360, 396, rng.randint(-3000, 3000), rng.randint(-200000, 200000)])
+    elif r < 0.27:
+        mm = rng.choice([10 ** 27, -10 ** 27, 10 ** 30, 10 ** 27 - 1, 10 ** 12])
+    elif r < 0.29:
+        yy = rng.choice([10 ** 6, -10 ** 6, 10 ** 30])
+    elif r < 0.31:
+        dd = rng.choice([10 ** 9, -10 ** 9, 10 ** 30, -10 ** 30, 10 ** 6])
+    return [yy, mm, ww, dd]
+
+
+def gen_full_ops(ctx, n):
+    rng = ctx.rng
+    bt = boundary_times()
+    ords = ordinals()
+    major = [0, 0, 1, 2, 3, 4, 4, 5, 5, 6, 13, 17, 18, 18]
+    ops = []
+    # the ordering examples of the property text and of the seeded change C10-2, on every route
+    fixed = [("0 2023 1 30 82800000000000", "0 1 0 0 2 0 0 0 0 0"), ("0 2023 1 31 82800000000000", "0 1 0 0 2 0 0 0 0 0"),
+             ("0 2024 1 30 82800000000000", "0 1 0 0 2 0 0 0 0 0"), ("0 2023 3 31 0", "0 -1 0 0 0 0 0 0 0 -1"),
+             ("0 2024 2 29 86399999999999", "1 0 0 0 0 0 0 0 0 1"), ("0 2024 2 29 0", "-1 0 0 0 0 0 0 0 0 -1"),
+             ("4 5784 6 30 82800000000000", "1 0 0 0 1 0 0 0 0 0"), ("5 5784 12 30 82800000000000", "1 0 0 0 1 0 0 0 0 0"),
+             ("18 180 18 24 86399999999999", "0 1 0 0 0 0 0 0 0 1"), ("18 180 18 24 0", "0 -1 0 0 0 0 0 0 0 -1"),
+             ("18 180 18 23 86399999999999", "1 0 0 0 0 0 0 0 0 1"), ("0 9999 12 31 86399999999999", "0 0 0 0 0 0 0 0 0 1"),
+             ("0 -9998 1 1 0", "0 0 0 0 0 0 0 0 0 -1"), ("0 9999 11 30 86399999999999", "0 1 0 0 0 0 0 0 0 1"),
+             ("0 9999 12 1 0", "0 1 0 -1 0 0 0 0 0 0"), ("0 9998 12 31 43200000000000", "1 0 0 0 12 0 0 0 0 0"),
+             ("17 1500 12 29 86399999999999", "0 0 0 0 0 0 0 0 1 0"), ("3 1739 13 6 82800000000000", "1 0 0 0 1 0 0 0 0 0")]
+    for pre, per in fixed:
+        for route in ROUTES_PLUS + ROUTES_MINUS:
+            ops.append(f"ldtf.period {route} {pre} {per}")
+    for i in range(n):
+        o = rng.choice(major) if rng.random() < 0.6 else rng.choice(ords)
+        a = gen_date(rng, o)
+        nod = gen_nod_edge(rng, bt)
+        c4 = gen_date_comps(rng, o, a)
+        mode = rng.random()
+        if mode < 0.45:
+            # month / year clamping together with a carry across midnight: where an ordering mistake shows
+            c = info(o)[0]
+            dim = c.get_days_in_month(a[0], a[1])
+            a = (a[0], a[1], rng.choice([dim, dim, max(dim - 1, 1), max(dim - 2, 1), a[2]]))
+            if rng.random() < 0.7:
+                c4[0], c4[1] = rng.choice([(0, 1), (0, -1), (0, 1), (0, -1), (1, 0), (-1, 0), (4, 0), (0, 2), (0, -2), (1, 1), (-1, -1),
+                                           (0, c.get_months_in_year(a[0])), (0, 6), (0, 7), (0, -6)])
+            if rng.random() < 0.7:
+                c4[2] = c4[3] = 0
+            tv = gen_time_comps(rng, nod, True)
+        else:
+            tv = gen_time_comps(rng, nod, False)
+        route = rng.choice(ROUTES_PLUS + ROUTES_MINUS)
+        if route in ROUTES_MINUS and rng.random() < 0.8:
+            c4, tv = [-x for x in c4], [-x for x in tv]   # generated for the plus direction
+        ops.append(f"ldtf.period {route} {o} {a[0]} {a[1]} {a[2]} {nod} " + " ".join(map(str, c4 + tv)))
+    # LocalDateTime.plus_years / plus_months / plus_weeks / plus_days: one step, time of day kept
+    for i in range(n // 4):
+        o = rng.choice(major) if rng.random() < 0.6 else rng.choice(ords)
+        a = gen_date(rng, o)
+        nod = gen_nod_edge(rng, bt)
+        c4 = gen_date_comps(rng, o, a)
+        j = rng.randrange(4)
+        if c4[j] == 0:
+            c4[j] = rng.choice([1, -1, 0, 12, -13])
+        ops.append(f"ldtf.unit {DATE_UNITS[j]} {o} {a[0]} {a[1]} {a[2]} {nod} {c4[j]}")
+    # invalid receivers (the constructor's ValueError), a few
+    ops += ["ldtf.period plus 0 2023 2 30 0 0 0 0 0 0 0 0 0 0 1", "ldtf.period plus 4 5783 13 1 0 0 0 0 1 0 0 0 0 0 0",
+            "ldtf.period plus 0 2023 1 1 86400000000000 0 0 0 0 0 0 0 0 0 1", "ldtf.period minus 18 180 18 25 0 0 0 0 1 0 0 0 0 0 0"]
+    for i in range(n // 4):
+        o = rng.choice(major) if rng.random() < 0.6 else rng.choice(ords)
+        a = gen_date(rng, o)
+        c4 = gen_date_comps(rng, o, a)
+        tv = [0] * 6
+        if rng.random() < 0.2:
+            tv[rng.randrange(6)] = rng.choice([1, -1, 24, 10 ** 30, rng.randint(-1000, 1000)])
+        route = rng.choice(ROUTES_PLUS + ROUTES_MINUS)
+        ops.append(f"datef.period {route} {o} {a[0]} {a[1]} {a[2]} " + " ".join(map(str, c4 + tv)))
+    for i in range(n // 4):
+        nod = gen_nod_edge(rng, bt)
+        tv = gen_time_comps(rng, nod, rng.random() < 0.5)
+        c4 = [0] * 4
+        if rng.random() < 0.2:
+            c4[rng.randrange(4)] = rng.choice([1, -1, 7, 10 ** 30, rng.randint(-1000, 1000)])
+        route = rng.choice(ROUTES_PLUS + ROUTES_MINUS)
+        ops.append(f"timef.period {route} {nod} " + " ".join(map(str, c4 + tv)))
+
+    def comp():
+        r = rng.random()
+        if r < 0.3:
+            return 0
+        if r < 0.7:
+            return rng.randint(-100, 100)
+        if r < 0.9:
+            return rng.randint(-10 ** 9, 10 ** 9)
+        return rng.choice([1, -1]) * rng.choice([2 ** 31, 2 ** 63, 2 ** 64, 10 ** 30])
+    for i in range(n // 8):
+        a, b = [comp() for _ in range(10)], [comp() for _ in range(10)]
+        if rng.random() < 0.2:
+            b = [-x for x in a]
+        ops.append(f"period.alg {rng.choice(['opadd', 'add', 'opsub', 'subtract'])} " + " ".join(map(str, a + b)))
+        z = [0] * 10
+        if rng.random() < 0.8:
+            z[rng.randrange(10)] = rng.choice([1, -1, comp()])
+        ops.append("period.has " + " ".join(map(str, z)))
+        ops.append("period.has " + " ".join(map(str, a)))
+    return ops
+
+
+def gen_sumseq_cases(ctx, n):
+    """pairs of periods applied one after the other, in both orders, and as their sum (oracle only)"""
+    rng = ctx.rng
+    bt = boundary_times()
+    ords = ordinals()
+    out = []
+    for i in range(n):
+        o = rng.choice([0, 0, 1, 2, 3, 4, 5, 6, 13, 17, 18]) if rng.random() < 0.7 else rng.choice(ords)
+        a = gen_date(rng, o)
+        nod = gen_nod_edge(rng, bt)
+        if rng.random() < 0.4:
+            p = [0] * 4 + gen_time_comps(rng, nod, True)
+            q = [0] * 4 + gen_time_comps(rng, nod, rng.random() < 0.5)
+        else:
+            p = [rng.choice([0, 0, 1, -1]), rng.choice([0, 1, -1, 1, 2, -2, 12]), rng.choice([0, 0, 1]), rng.choice([0, 0, 1, -1, 30])] + \
+                (gen_time_comps(rng, nod, True) if rng.random() < 0.4 else [0] * 6)
+            q = [rng.choice([0, 0, 1, -1]), rng.choice([0, 1, -1, 1, 2, -2]), 0, rng.choice([0, 0, 1, -1])] + \
+                (gen_time_comps(rng, nod, True) if rng.random() < 0.6 else [0] * 6)
+        out.append(f"ldtf.sumseq {o} {a[0]} {a[1]} {a[2]} {nod} " + " ".join(map(str, p + q)))
+    return out
+
+
 def run(ctx):
     n = ctx.scale(24_000, 600_000)
     ctx.correspond("ldt.huge", gen_huge_ops(ctx), impl, oracle=oracle, neighbours=neighbours)
     ctx.correspond("tod.ops", gen_tod_ops(ctx, n), impl, oracle=oracle, neighbours=neighbours)
     ctx.correspond("ldt.plus", gen_ldt_ops(ctx, n), impl, oracle=oracle, neighbours=neighbours)
     ctx.correspond("ldt.period", gen_period_ops(ctx, n // 2), impl, oracle=oracle, neighbours=neighbours)
+    # hypotheses of Pyoda.C09.Evaluated (used by the full-period theorems), evaluated on the compiled driver while the
+    # correspondence runs (cal.wf 4|5 walk every day of 9999 Hebrew years: about 10 s each, on their own processes)
+    from concurrent.futures import ThreadPoolExecutor
+    import common
+    pool = ThreadPoolExecutor(max_workers=3)
+    futures = {op: pool.submit(common.model_eval, [op], META["drivers"][0]) for op in EVALUATED[:2]}
+    futures["rest"] = pool.submit(common.model_eval, EVALUATED[2:], META["drivers"][0])
+    nf = ctx.scale(14_000, 400_000)
+    ctx.correspond("full.period", gen_full_ops(ctx, nf), impl, oracle=oracle, neighbours=neighbours_full)
+    ctx.check_cases("period.sequence-vs-sum (no associativity assumed)", gen_sumseq_cases(ctx, ctx.scale(2_500, 60_000)),
+                    lambda c: oracle(c.split(" ")))
+    ctx.check_cases("period.sequence-witnesses", WITNESSES, witness_case, exhaustive=True)
+    ctx.note("sequence_vs_sum", dict(SUMSEQ_STATS))
+    replies = dict(zip(EVALUATED[2:], futures["rest"].result()))
+    for op in EVALUATED[:2]:
+        replies[op] = futures[op].result()[0]
+    pool.shutdown()
+
+    def evaluated_case(op):
+        if replies.get(op) != "1":
+            return {"key": "evaluated-hypothesis-false", "what": f"driver op {op} replied {replies.get(op)!r}: a hypothesis of the "
+                    "full-period theorems (calendar well-formedness / minimum year length, Pyoda.C09.Evaluated) does not hold for the model's calendar description"}
+        return None
+    ctx.check_cases("evaluated-hypotheses", sorted(replies), evaluated_case, exhaustive=True)
+
+
+EVALUATED = ["cal.wf 4", "cal.wf 5", "cal.wf 8", "cal.wf 17", "cal.wf 18", "date.wf 4", "date.wf 5"]
+
+
+def neighbours_full(t):
+    """vary the period components by one"""
+    out = []
+    first = {"ldtf.period": 7, "ldtf.unit": 7, "datef.period": 6, "timef.period": 3}.get(t[0])
+    if first is None:
+        return out
+    for i in range(first, len(t)):
+        for dlt in (-1, 1):
+            u = list(t)
+            u[i] = str(int(t[i]) + dlt)
+            out.append(" ".join(u))
+    return out
 
 
 def replay_op(op, failure):
+    if op.startswith("cal.wf") or op.startswith("date.wf"):
+        import common
+        r = common.model_eval([op], META["drivers"][0])[0]
+        return None if r == "1" else {"key": "evaluated-hypothesis-false", "what": f"driver op {op} replied {r!r}"}
+    if op.startswith("("):
+        import ast
+        return witness_case(ast.literal_eval(op))
     return oracle(op.split(" "))
